@@ -9,7 +9,7 @@
   * the invariant of the ordered Data loop on ARBITRARY input, `parseData_cov`
   * `bitflip_detected_data`
 -/
-import NdnVerif.C03.LemmasParse
+import NdnVerif.C03.LemmasData
 namespace Ndn.C12
 open Ndn.C03
 
@@ -599,5 +599,172 @@ theorem parseData_cov (R : ReaderSpecs) (R2 : ReaderSpecs2) (r : Rd) (V : Bytes)
   refine ⟨s1.sigCoverStart, e, h1, h2, g1, (rdTL_pos g3).1, (rdTL_pos g4).1, g2, by rw [f2]; exact g5, g6, g3, g4, ?_⟩
   intro hk
   exact (j4 hk).2 (by omega)
+
+
+/-! ### tamper detection -/
+
+/-- a packet that is exactly one Data TLV: `ReadData` returns what the Data parser reports for the value -/
+theorem readData_single (R : ReaderSpecs) (r : Rd) (V : Bytes) (hL : V.length + 16 < 2 ^ 62)
+    (hr : At r (encTL 6 ++ encTL V.length ++ V) 0) (p : DataP) (c : Bytes) (e : readData r = .ok (p, c)) :
+    ∃ sub s, At sub V 0 ∧ parseData {} sub = .ok s ∧ p = s.v ∧ c = s.sigCovered := by
+  have hb : (encTL 6 ++ encTL V.length ++ V).drop 0 = encTL 6 ++ (encTL V.length ++ (V ++ [])) := by simp
+  obtain ⟨r2, a2, l2, d2, e2⟩ := tlvLoop_step R packetBody (r.length - r.pos) ({} : PacketSt) r _ 0 6 V.length (V ++ [])
+    hr hb (by omega) (by omega)
+  obtain ⟨sub, r3, e3, as, a3⟩ := delegate_at R r2 _ _ V [] a2 d2
+  simp only [readData] at e
+  obtain ⟨ps, e4, e5⟩ := bind_ok_inv e
+  simp only [parsePacket, loopFuel] at e4
+  obtain ⟨⟨ps', rend⟩, e6, e7⟩ := bind_ok_inv e4
+  obtain rfl : ps' = ps := by simpa using e7
+  rw [e2] at e6
+  obtain ⟨⟨ps1, r4⟩, e8, e9⟩ := bind_ok_inv e6
+  simp only [packetBody, e3] at e8
+  simp at e8
+  obtain ⟨s, e10, e11⟩ := bind_ok_inv e8
+  simp at e11
+  obtain ⟨rfl, rfl⟩ := e11
+  have hend : (encTL 6 ++ encTL V.length ++ V).drop (0 + tlLen 6 + tlLen V.length + V.length) = [] := by
+    apply List.drop_eq_nil_of_le
+    simp [encTL_length]; omega
+  have hf : 0 < r.length - r.pos := by
+    rw [R.pos_eq r _ 0 hr, R.length_eq r _ 0 hr]; simp [encTL_length]; have := tlLen_pos 6; omega
+  rw [tlvLoop_end' R packetBody _ _ r3 _ _ a3 hend hf] at e9
+  obtain ⟨rfl, _⟩ : ps' = _ ∧ rend = r3 := by simpa using e9.symm
+  simp at e5
+  split at e5
+  · cases e5
+  · obtain ⟨rfl, rfl⟩ : s.v = p ∧ s.sigCovered = c := by simpa using e5
+    exact ⟨sub, s, as, e10, rfl, rfl⟩
+
+/-- the Data value level: a value whose signed portion or signature value was altered (lengths kept,
+    SignatureValue header intact) is never reported with the original (signed portion, signature) pair -/
+theorem value_tamper (R : ReaderSpecs) (R2 : ReaderSpecs2) (cov cov' sv sv' : Bytes) (sub : Rd) (s : DataSt)
+    (hc : cov'.length = cov.length) (hs : sv'.length = sv.length) (hn : sv.length < 2 ^ 64)
+    (hne : cov' ≠ cov ∨ sv' ≠ sv)
+    (ha : At sub (cov' ++ (encTL 23 ++ encTL sv.length) ++ sv') 0) (hp : parseData {} sub = .ok s) :
+    ¬ (s.sigCovered = cov ∧ s.v.sv = some sv) := by
+  rintro ⟨h1, h2⟩
+  obtain ⟨s0, e, k1, k2, g1, g2, g3, g4, g5, g6, g7, g8, _⟩ := parseData_cov R R2 sub _ s sv ha hp h2
+  have h23 : tlLen 23 = 1 := by decide
+  have hT : (encTL 23 ++ encTL sv.length).length = 1 + tlLen sv.length := by simp [encTL_length, h23]
+  have hVl : (cov' ++ (encTL 23 ++ encTL sv.length) ++ sv').length = cov.length + (1 + tlLen sv.length) + sv.length := by
+    rw [List.length_append, List.length_append, hT, hc, hs]
+  rw [hVl] at g4
+  have hcl : e - s0 = cov.length := by
+    have := congrArg List.length g5
+    rw [h1] at this
+    simp only [List.length_take, List.length_drop, hVl] at this
+    omega
+  -- the start marker is 0: otherwise the length field would be shorter than its minimal form
+  have hs0 : s0 = 0 := by
+    rcases Nat.eq_zero_or_pos s0 with h | h
+    · exact h
+    · exfalso
+      have hd : (cov' ++ (encTL 23 ++ encTL sv.length) ++ sv').drop (e + k1)
+          = (encTL 23 ++ encTL sv.length).drop (s0 + k1) ++ sv' := by
+        rw [show e + k1 = cov'.length + (s0 + k1) by omega, ← List.drop_drop, List.append_assoc,
+          List.drop_left, List.drop_append_of_le_length (by rw [hT]; omega)]
+      have htk : ((cov' ++ (encTL 23 ++ encTL sv.length) ++ sv').drop (e + k1)).take k2
+          = ((encTL 23 ++ encTL sv.length).drop (s0 + k1)).take k2 := by
+        rw [hd, List.take_append_of_le_length (by rw [List.length_drop, hT]; omega)]
+      have hwf : Bytes.WF (((cov' ++ (encTL 23 ++ encTL sv.length) ++ sv').drop (e + k1)).take k2) := by
+        rw [htk]
+        intro z hz
+        have hz1 := List.mem_of_mem_drop (List.mem_of_mem_take hz)
+        rcases List.mem_append.1 hz1 with hz2 | hz2
+        · exact encTL_wf 23 z hz2
+        · exact encTL_wf _ z hz2
+      have := rdTL_tlLen g8 hwf
+      omega
+  subst hs0
+  have he : e = cov.length := by omega
+  subst he
+  have hcov : cov' = cov := by
+    rw [← h1, g5]
+    simp [List.append_assoc, ← hc]
+  have hd1 : (cov' ++ (encTL 23 ++ encTL sv.length) ++ sv').drop cov.length = encTL 23 ++ (encTL sv.length ++ sv') := by
+    rw [← hc, List.append_assoc, List.drop_left, List.append_assoc]
+  rw [hd1, rdTL_encTL 23 (by omega)] at g7
+  obtain rfl : 1 = k1 := by simpa [h23] using g7
+  have hd2 : (cov' ++ (encTL 23 ++ encTL sv.length) ++ sv').drop (cov.length + 1) = encTL sv.length ++ sv' := by
+    rw [← List.drop_drop, hd1]; simp [encTL]
+  rw [hd2, rdTL_encTL _ hn] at g8
+  obtain rfl : tlLen sv.length = k2 := by simpa using g8
+  have hd3 : (cov' ++ (encTL 23 ++ encTL sv.length) ++ sv').drop (cov.length + 1 + tlLen sv.length) = sv' := by
+    rw [← List.drop_drop, hd2, ← encTL_length, List.drop_left]
+  rw [hd3, ← hs, List.take_length] at g6
+  rcases hne with h | h
+  · exact h hcov
+  · exact h g6.symm
+
+
+/-- Tamper detection for Data (byte-range content; the cryptography is assumed elsewhere): let the packet
+    `e.wire` be built by `makeData` with a signature (`d.est > 0`), and `b'` any byte string of the same
+    length that agrees with it everywhere except at byte `k`, where `k` lies in the signed portion or in
+    the signature value.  Then for every healthy reader over `b'`: decoding fails, or the
+    (signed portion, signature value) pair reported by the decoder differs from the pair
+    (bytes handed to the signer, signature value) of the original — a validator that accepts exactly
+    the original pair rejects. -/
+theorem bitflip_detected_data (R : ReaderSpecs) (R2 : ReaderSpecs2) (E : EncSpecs) (d : DataIn) (sign : Bytes → Bytes)
+    (e : Encoded) (hv : d.Valid) (hm : makeData d sign = .ok e) (hest : d.est > 0)
+    (b' : Bytes) (k : Nat) (hlen : b'.length = e.wire.flatten.length)
+    (hk : b'.getD k 0 ≠ e.wire.flatten.getD k 0) (hsame : ∀ j, j ≠ k → b'.getD j 0 = e.wire.flatten.getD j 0)
+    (hreg : (1 + tlLen (dataValue d e.sigVal).length ≤ k
+              ∧ k < 1 + tlLen (dataValue d e.sigVal).length + (dataCovered d).length)       -- signed portion
+            ∨ (e.wire.flatten.length - e.sigVal.length ≤ k ∧ k < e.wire.flatten.length))   -- signature value
+    (r : Rd) (hr : At r b' 0) (p : DataP) (cov : Bytes) :
+    readData r = .ok (p, cov) → ¬ (cov = dataCovered d ∧ p.sv = some e.sigVal) := by
+  intro hrd
+  obtain ⟨hfl, hs1, _⟩ := E.makeData_flatten d sign e hv hm
+  obtain ⟨_, _, hsl⟩ := hs1 hest
+  have hvl := dataValue_length_le E d e.sigVal (fun _ => hsl)
+  have hdl := hv.2.2.2
+  have hsplit : dataValue d e.sigVal = dataCovered d ++ (encTL 23 ++ encTL e.sigVal.length) ++ e.sigVal := by
+    rw [dataValue_split]; simp [sigPart, hest]
+  obtain ⟨V, hVdef⟩ : ∃ V, V = dataValue d e.sigVal := ⟨_, rfl⟩
+  rw [← hVdef] at hfl hvl hsplit hreg
+  have h6 : tlLen 6 = 1 := by decide
+  have hVlen : V.length = (dataCovered d).length + (tlLen 23 + tlLen e.sigVal.length) + e.sigVal.length := by
+    rw [hsplit]; simp only [List.length_append, encTL_length]
+  have hH : (encTL 6 ++ encTL V.length).length = 1 + tlLen V.length := by
+    simp [encTL_length, h6]
+  have hsvl : e.sigVal.length < 2 ^ 64 := by omega
+  rcases hreg with ⟨k1, k2⟩ | ⟨k1, k2⟩
+  · -- the altered byte is in the signed portion
+    have heq : e.wire.flatten = (encTL 6 ++ encTL V.length) ++ dataCovered d
+        ++ ((encTL 23 ++ encTL e.sigVal.length) ++ e.sigVal) := by
+      rw [hfl]; conv => lhs; rhs; rw [hsplit]
+      simp only [List.append_assoc]
+    rw [heq] at hlen hk hsame
+    obtain ⟨C', hb', hC'l, hC'ne⟩ := splice_mid _ _ _ b' k hlen hk hsame (by rw [hH]; exact k1) (by rw [hH]; exact k2)
+    have hV' : (C' ++ (encTL 23 ++ encTL e.sigVal.length) ++ e.sigVal).length = V.length := by
+      rw [hVlen]; simp only [List.length_append, hC'l, encTL_length]
+    have hb2 : b' = encTL 6 ++ encTL (C' ++ (encTL 23 ++ encTL e.sigVal.length) ++ e.sigVal).length
+        ++ (C' ++ (encTL 23 ++ encTL e.sigVal.length) ++ e.sigVal) := by
+      rw [hV', hb']; simp only [List.append_assoc]
+    rw [hb2] at hr
+    obtain ⟨sub, s, as, hp, rfl, rfl⟩ := readData_single R r _ (by rw [hV']; omega) hr p cov hrd
+    exact value_tamper R R2 (dataCovered d) C' e.sigVal e.sigVal sub s hC'l rfl hsvl (Or.inl hC'ne) as hp
+  · -- the altered byte is in the signature value
+    have heq : e.wire.flatten = ((encTL 6 ++ encTL V.length) ++ dataCovered d
+        ++ (encTL 23 ++ encTL e.sigVal.length)) ++ e.sigVal ++ [] := by
+      rw [hfl]; conv => lhs; rhs; rw [hsplit]
+      simp only [List.append_assoc, List.append_nil]
+    have hfl_len : e.wire.flatten.length = 1 + tlLen V.length + V.length := by
+      rw [hfl]; simp only [List.length_append, encTL_length, h6]
+    have hAl : ((encTL 6 ++ encTL V.length) ++ dataCovered d
+        ++ (encTL 23 ++ encTL e.sigVal.length)).length = e.wire.flatten.length - e.sigVal.length := by
+      simp only [List.length_append, encTL_length, h6]; omega
+    rw [heq] at hlen hk hsame
+    obtain ⟨S', hb', hS'l, hS'ne⟩ := splice_mid _ _ _ b' k hlen hk hsame (by rw [hAl]; exact k1)
+      (by rw [hAl]; omega)
+    have hV' : (dataCovered d ++ (encTL 23 ++ encTL e.sigVal.length) ++ S').length = V.length := by
+      rw [hVlen]; simp only [List.length_append, hS'l, encTL_length]
+    have hb2 : b' = encTL 6 ++ encTL (dataCovered d ++ (encTL 23 ++ encTL e.sigVal.length) ++ S').length
+        ++ (dataCovered d ++ (encTL 23 ++ encTL e.sigVal.length) ++ S') := by
+      rw [hV', hb']; simp only [List.append_assoc, List.append_nil]
+    rw [hb2] at hr
+    obtain ⟨sub, s, as, hp, rfl, rfl⟩ := readData_single R r _ (by rw [hV']; omega) hr p cov hrd
+    exact value_tamper R R2 (dataCovered d) (dataCovered d) e.sigVal S' sub s rfl hS'l hsvl (Or.inr hS'ne) as hp
 
 end Ndn.C12
